@@ -44,7 +44,8 @@ func window(s *server.Server, dc string) *uint64 {
 	return nil
 }
 
-func serves(am *tso.AllocatorManager, dc string) bool {
+// Serves tells whether this server's Local allocator of dc is initialised and leads.
+func Serves(am *tso.AllocatorManager, dc string) bool {
 	a, err := am.GetAllocator(dc)
 	if err != nil || !a.IsInitialize() {
 		return false
@@ -53,7 +54,8 @@ func serves(am *tso.AllocatorManager, dc string) bool {
 	return ok && l.IsAllocatorLeader()
 }
 
-func join(s *server.Server, dc string, member uint64, d time.Duration) bool {
+// Join writes the dc-location record of a (fake) member and waits until this server leads the allocator of dc.
+func Join(s *server.Server, dc string, member uint64, d time.Duration) bool {
 	am := s.GetTSOAllocatorManager()
 	ctx, cancel := context.WithTimeout(context.Background(), 5*time.Second)
 	_, err := s.GetClient().Put(ctx, s.GetMember().GetDCLocationPath(member), dc)
@@ -64,7 +66,7 @@ func join(s *server.Server, dc string, member uint64, d time.Duration) bool {
 	deadline := time.Now().Add(d)
 	for time.Now().Before(deadline) {
 		am.ClusterDCLocationChecker()
-		if serves(am, dc) {
+		if Serves(am, dc) {
 			return true
 		}
 		time.Sleep(50 * time.Millisecond)
@@ -75,7 +77,7 @@ func join(s *server.Server, dc string, member uint64, d time.Duration) bool {
 // LeaveAndReturn runs the history for dc-location dc (record of fake member `member`) and then lets `other` join.
 func LeaveAndReturn(s *server.Server, dc string, member uint64, other string, otherMember uint64) (o Obs) {
 	am := s.GetTSOAllocatorManager()
-	if !join(s, dc, member, 30*time.Second) {
+	if !Join(s, dc, member, 30*time.Second) {
 		o.Skipped = dc + " was not served within 30 s"
 		return
 	}
@@ -115,13 +117,13 @@ func LeaveAndReturn(s *server.Server, dc string, member uint64, other string, ot
 	time.Sleep(1200 * time.Millisecond) // one more patrol round
 	o.WinWhileAway = window(s, dc)
 	// another dc-location joins while dc is away
-	if !join(s, other, otherMember, 30*time.Second) {
+	if !Join(s, other, otherMember, 30*time.Second) {
 		o.Skipped = other + " was not served within 30 s"
 		return
 	}
 	o.OtherSuffix = am.GetClusterDCLocations()[other].Suffix
 	// the dc-location comes back (a replacement member with the same label)
-	if !join(s, dc, member+1, 30*time.Second) {
+	if !Join(s, dc, member+1, 30*time.Second) {
 		o.Skipped = dc + " was not served again within 30 s"
 		return
 	}
